@@ -1,5 +1,388 @@
-/- Driver for C07 (stub until the property's model is written). -/
+/- Driver for C07: the real qmail-qmtpd / qmail-qmqpd / qmail-smtpd (with the real qmail.c and a stand-in queue
+   program) against the models of Nq/Netstring.lean, Nq/QmailC.lean, Nq/Received.lean.
+   Input lines (harness/c07_common.h):
+     <P> <databytes|-1> <time> <host> <ip> <info> <lhost> <lip> <relay> <qqscript> <wfault> <chunk> <payload…>
+        = <exit> <out> <pids> <nrec> (<fd0> <fd1>)*
+   DISAGREE: model ≠ implementation.  ORACLE: the property predicate (Nq/Spec/C07.lean) fails on what the
+   implementation did.  -/
 import Drv.Util
-open Drv
-def handle (st : Stats) (_line : String) : IO Stats := return { st with cases := st.cases + 1 }
+import Nq.Netstring
+import Nq.Spec.C07
+
+open Nq Nq.QmailC Nq.Received Nq.Netstring Drv
+open Nq.Spec.C07 (Req Cls qqClass Queued NotQueued receivedSpec)
+
+def optHex (s : String) : Option (Option Bytes) :=
+  if s == "~" then some none else (unhex s).map some
+
+def rcpthostsFile : List Bytes := [str "ok.example", str ".sub.example", str "localhost"]
+
+structure Case where
+  proto : String
+  databytes : Nat
+  now : Nat
+  peer : Peer
+  relay : Option Bytes
+  ends : List QEnd
+  wleft : Option Nat
+  chunk : Nat
+  pay : List String
+  -- observed
+  exit : Int
+  out : Bytes
+  pids : List Nat
+  recs : List (Bytes × Bytes)
+  key : String
+
+def parseEnds (s : String) : Option (List QEnd) :=
+  (s.splitOn ";").mapM (fun e =>
+    match e.splitOn "," with
+    | [c, sg, hx] => do
+      let t ← unhex hx
+      some { exit := c.toNat?.getD 0, crashed := sg.toNat?.getD 0 != 0, text := t }
+    | _ => none)
+
+def normDatabytes (d : Int) : Nat :=
+  if d < 0 then 0 else
+  let u := d.toNat % 4294967296
+  if u = 4294967295 then u - 1 else u
+
+def pairUp : List String → Option (List (Bytes × Bytes))
+  | [] => some []
+  | a :: b :: r => do
+    let x ← unhex a; let y ← unhex b; let t ← pairUp r
+    some ((x, y) :: t)
+  | _ => none
+
+def parseCase (line : String) : Option Case := do
+  let fs := fields line
+  let i ← fs.idxOf? "="
+  let pre := fs.take i
+  let post := fs.drop (i + 1)
+  guard (pre.length ≥ 13 ∧ post.length ≥ 4)
+  let g := fun k => pre.getD k ""
+  let host ← optHex (g 3); let ip ← optHex (g 4); let info ← optHex (g 5)
+  let lhost ← optHex (g 6); let lip ← optHex (g 7); let relay ← optHex (g 8)
+  let ends ← parseEnds (g 9)
+  let wf := (g 10).toInt?.getD (-1)
+  let out ← unhex (post.getD 1 "")
+  let pids := if post.getD 2 "-" == "-" then [] else ((post.getD 2 "").splitOn ",").map (fun p => p.toNat?.getD 0)
+  let nrec := (post.getD 3 "0").toNat?.getD 0
+  let recs ← pairUp (post.drop 4)
+  guard (recs.length = nrec)
+  some { proto := g 0, databytes := normDatabytes ((g 1).toInt?.getD (-1)), now := (g 2).toNat?.getD 0,
+         peer := ⟨host, ip, info, lhost, lip⟩, relay := relay, ends := ends,
+         wleft := if wf < 0 then none else some wf.toNat, chunk := (g 11).toNat?.getD 0, pay := pre.drop 12,
+         exit := (post.getD 0 "").toInt?.getD (-99), out := out, pids := pids, recs := recs,
+         key := " ".intercalate pre }
+
+/-! ### helpers of the oracle -/
+
+def isKok (now : Nat) (r : Bytes) : Bool :=
+  -- "Kok <now> qp <digits>"
+  let pre := str "Kok " ++ Nq.Spec.C07.dec now ++ str " qp "
+  r.take pre.length == pre && (r.drop pre.length).length > 0 && (r.drop pre.length).all isDigit
+
+def endAt (ends : List QEnd) (k : Nat) : QEnd :=
+  match ends.getLast? with
+  | none => {}
+  | some l => ends.getD k l
+
+/-- required class of the status for a recipient that policy accepts, given how the queue run ended -/
+def statusOk (c : Cls) (faulted : Bool) (r : Bytes) (now : Nat) : Bool :=
+  match c with
+  | .ok => isKok now r || (faulted && r.head? == some 90)
+  | .perm => r.head? == some 68
+  | .temp => r.head? == some 90
+  | .any => !(r.head? == some 75)
+
+structure Rep where
+  st : Stats
+  msgs : List String := []      -- DISAGREE / ORACLE lines
+
+def Rep.dis (r : Rep) (c : Case) (what : String) : Rep :=
+  { r with st := { r.st with disagree := r.st.disagree + 1 }, msgs := r.msgs ++ [s!"DISAGREE what={what} case={c.key.replace " " "|"}"] }
+def Rep.ora (r : Rep) (c : Case) (kind what : String) : Rep :=
+  { r with st := { r.st with oracle := r.st.oracle + 1 }, msgs := r.msgs ++ [s!"ORACLE kind={kind} what={what} case={c.key.replace " " "|"}"] }
+
+def lhostOf (p : Peer) : Bytes := p.loc
+
+/-! ### QMTP -/
+
+def badAddr (a : Bytes) (extra : Nat) : Bool := a.length + extra ≥ 1000 || a.contains 0
+
+def qmtpCheck (c : Case) (r0 : Rep) : Rep := Id.run do
+  let mut r := r0
+  let some inp := unhex (c.pay.getD 0 "-") | return r.dis c "unparsable-input"
+  let cfg : Qmtp.Cfg := { databytes := c.databytes, relay := c.relay, rcpthosts := some rcpthostsFile, peer := c.peer, now := c.now, chunk := c.chunk }
+  -- (1) model vs implementation
+  let s := Qmtp.run cfg c.wleft c.ends c.pids inp
+  if s.out != c.out then r := r.dis c s!"output model={hex s.out} impl={hex c.out}"
+  if Int.ofNat s.exit.code != c.exit then r := r.dis c s!"exit model={s.exit.code} impl={c.exit}"
+  let opened := s.msgs.filter (·.m.opened)
+  if opened.length != c.recs.length then r := r.dis c s!"queue-runs model={opened.length} impl={c.recs.length}"
+  else
+    for (d, (f0, f1)) in opened.zip c.recs do
+      if d.q.msgPipe != f0 then r := r.dis c s!"message-pipe model={hex d.q.msgPipe} impl={hex f0}"
+      if d.q.envPipe != f1 then r := r.dis c s!"envelope-pipe model={hex d.q.envPipe} impl={hex f1}"
+  -- (2) property oracle on the implementation's behaviour
+  let (reqs, _) := Nq.Spec.C07.qmtpAll (inp.length + 1) inp
+  let some reps := Nq.Spec.C07.nsList c.out | return r.ora c "garbled-output" "output is not a sequence of netstrings"
+  let relayLen := (c.relay.getD []).length
+  let mut left := reps
+  let mut k := 0
+  for q in reqs do
+    let n := q.rcpts.length
+    let mine := left.take n
+    let visible := mine.length == n
+    left := left.drop n
+    let e := endAt c.ends k
+    let rec? := c.recs[k]?
+    let acked := (q.rcpts.zip mine).filter (fun (_, rp) => rp.head? == some 75)
+    let ackedAddrs := acked.map (fun (a, _) => a ++ c.relay.getD [])
+    let stored := q.body
+    let tooBig := c.databytes ≠ 0 && stored.length > c.databytes
+    let senderBad := badAddr q.sender 0
+    let content := receivedSpec "QMTP" c.peer.remotehost c.peer.remoteip (lhostOf c.peer) c.peer.info none c.now ++ stored
+    -- ack ⇒ exactly that message queued
+    if !acked.isEmpty then
+      match rec? with
+      | none => r := r.ora c "ack-without-queue" s!"message {k} acknowledged but no queue run"
+      | some (f0, f1) =>
+        if !Queued f0 f1 e.exit e.crashed content q.sender ackedAddrs then
+          r := r.ora c "ack-not-exact" s!"message {k} acknowledged but queue got fd0={hex f0} fd1={hex f1} exit={e.exit} crashed={e.crashed} expected-content={hex content}"
+      if tooBig then r := r.ora c "ack-oversize" s!"message {k} of {stored.length} bytes acknowledged with databytes={c.databytes}"
+      if senderBad then r := r.ora c "ack-bad-sender" s!"message {k} acknowledged with an unacceptable sender"
+    -- queued ⇒ acknowledged (when the replies were sent at all)
+    if visible && acked.isEmpty then
+      match rec? with
+      | some (_, f1) =>
+        if !NotQueued f1 e.exit e.crashed then r := r.ora c "queued-without-ack" s!"message {k} was queued (complete envelope, exit 0) but no recipient was acknowledged"
+      | none => pure ()
+    -- every reply has the right class
+    for (a, rp) in q.rcpts.zip mine do
+      let refused := badAddr a relayLen || (c.relay.isNone && !rcpthostsOk (some rcpthostsFile) a)
+      if refused then
+        if rp.head? != some 68 then r := r.ora c "class" s!"message {k}: recipient {hex a} must be refused permanently, got {hex rp}"
+      else if senderBad || tooBig then
+        if rp.head? != some 68 then r := r.ora c "class" s!"message {k}: sender/size refusal must be permanent, got {hex rp}"
+      else
+        let cl := qqClass e.exit e.crashed e.text
+        if !statusOk cl c.wleft.isSome rp c.now then
+          r := r.ora c "class" s!"message {k}: queue ended exit={e.exit} crashed={e.crashed}; status {hex rp} has the wrong class"
+    k := k + 1
+  -- anything after the well-framed messages: no acknowledgement, nothing queued
+  for rp in left do
+    if rp.head? == some 75 then r := r.ora c "ack-malformed" s!"acknowledgement {hex rp} for input that is not a well-framed message"
+  for (_, f1) in c.recs.drop reqs.length do
+    if envComplete f1 then r := r.ora c "queued-malformed" s!"a complete envelope {hex f1} reached the queue for input that is not a well-framed message"
+  return r
+
+/-! ### QMQP -/
+
+def qmqpCheck (c : Case) (r0 : Rep) : Rep := Id.run do
+  let mut r := r0
+  let some inp := unhex (c.pay.getD 0 "-") | return r.dis c "unparsable-input"
+  let cfg : Qmqp.Cfg := { peer := c.peer, now := c.now }
+  let e := endAt c.ends 0
+  let o := Qmqp.run cfg c.wleft e (c.pids.headD 0) inp
+  if o.out != c.out then r := r.dis c s!"output model={hex o.out} impl={hex c.out}"
+  if Int.ofNat o.exit.code != c.exit then r := r.dis c s!"exit model={o.exit.code} impl={c.exit}"
+  match o.r.opened, c.recs with
+  | false, [] => pure ()
+  | true, [(f0, f1)] =>
+    if o.q.msgPipe != f0 then r := r.dis c s!"message-pipe model={hex o.q.msgPipe} impl={hex f0}"
+    if o.q.envPipe != f1 then r := r.dis c s!"envelope-pipe model={hex o.q.envPipe} impl={hex f1}"
+  | _, _ => r := r.dis c s!"queue-runs model={o.r.opened} impl={c.recs.length}"
+  -- oracle
+  let parsed : Option (Option Bytes) := if c.out.isEmpty then some none else
+    match Nq.Spec.C07.ns? c.out with
+    | some (rp, []) => some (some rp)
+    | _ => none
+  let some reply := parsed | return r.ora c "garbled-output" "output is not one netstring"
+  let acked := (reply.bind (·.head?)) == some 75
+  match Nq.Spec.C07.qmqpReq inp with
+  | none =>
+    if acked then r := r.ora c "ack-malformed" s!"acknowledgement for a request that is not well framed"
+    for (_, f1) in c.recs do
+      if envComplete f1 then r := r.ora c "queued-malformed" s!"a complete envelope {hex f1} reached the queue for a request that is not well framed"
+  | some q =>
+    let bad := badAddr q.sender 0 || q.rcpts.any (badAddr · 0)
+    let content := receivedSpec "QMQP" c.peer.remotehost c.peer.remoteip (lhostOf c.peer) c.peer.info none c.now ++ q.body
+    if acked then
+      match c.recs with
+      | [(f0, f1)] =>
+        if !Queued f0 f1 e.exit e.crashed content q.sender q.rcpts then
+          r := r.ora c "ack-not-exact" s!"acknowledged but queue got fd0={hex f0} fd1={hex f1} exit={e.exit} crashed={e.crashed} expected-content={hex content}"
+      | _ => r := r.ora c "ack-without-queue" "acknowledged but no (single) queue run"
+      if bad then r := r.ora c "ack-bad-address" "acknowledged although an address is over-long or contains NUL"
+    else
+      for (_, f1) in c.recs do
+        if !NotQueued f1 e.exit e.crashed then r := r.ora c "queued-without-ack" "queued (complete envelope, exit 0) but not acknowledged"
+    match reply with
+    | none => r := r.ora c "no-reply" "a well-framed request got no reply"
+    | some rp =>
+      if bad then
+        if rp.head? != some 68 then r := r.ora c "class" s!"over-long / NUL address must be refused permanently, got {hex rp}"
+      else if !statusOk (qqClass e.exit e.crashed e.text) c.wleft.isSome rp c.now then
+        r := r.ora c "class" s!"queue ended exit={e.exit} crashed={e.crashed}; status {hex rp} has the wrong class"
+  return r
+
+/-! ### SMTP -/
+
+def crlfB : Bytes := [13, 10]
+
+def splitCRLF : Bytes → Bytes → List Bytes      -- complete lines only
+  | _, [] => []
+  | cur, [_] => []
+  | cur, a :: b :: r => if a = 13 ∧ b = 10 then cur.reverse :: splitCRLF [] r else splitCRLF (a :: cur) (b :: r)
+
+def isAckLine (now : Nat) (l : Bytes) : Bool :=
+  let pre := str "250 ok " ++ Nq.Spec.C07.dec now ++ str " qp "
+  l.take pre.length == pre && (l.drop pre.length).length > 0 && (l.drop pre.length).all isDigit
+
+def smtpCheck (c : Case) (r0 : Rep) : Rep := Id.run do
+  let mut r := r0
+  let g := fun k => c.pay.getD k "-"
+  let some heloO := optHex (g 0) | return r.dis c "unparsable-helo"
+  let some sender := unhex (g 1) | return r.dis c "unparsable-sender"
+  let some rcpts := (if g 2 == "-" then some [] else ((g 2).splitOn ",").mapM unhex) | return r.dis c "unparsable-rcpts"
+  let some stream0 := unhex (g 3) | return r.dis c "unparsable-stream"
+  let cut := (g 4).toInt?.getD (-1)
+  let cmdlen := (g 5).toNat?.getD 0
+  let inCommands := cut ≥ 0 && cut < Int.ofNat cmdlen
+  let stream := if cut ≥ 0 then stream0.take (cut.toNat - cmdlen) else stream0
+  let cfg : Smtp.Cfg := { databytes := c.databytes, relay := c.relay, rcpthosts := some rcpthostsFile, peer := c.peer, now := c.now }
+  let maxA := Nq.Gen.C07.smtpAddrMax - 1
+  let mailOk := sender.length ≤ maxA
+  let relayB := c.relay.getD []
+  -- reply to every RCPT, and the accepted addresses
+  let rcptRes : List (Bytes × Option Bytes) := rcpts.map (fun a =>
+    if !mailOk then (str "503 MAIL first (#5.5.1)", none)
+    else if a.length > maxA then (str "555 syntax error (#5.5.4)", none)
+    else if c.relay.isSome then (str "250 ok", some (a ++ relayB))
+    else if rcpthostsOk (some rcpthostsFile) a then (str "250 ok", some a)
+    else (str "553 sorry, that domain isn't in my list of allowed rcpthosts (#5.7.1)", none))
+  let accepted := rcptRes.filterMap (·.2)
+  let ackLines := (splitCRLF [] c.out).filter (isAckLine c.now)
+  let e := endAt c.ends 0
+  if inCommands then
+    -- client gone before DATA was complete: nothing may be acknowledged or queued
+    if !ackLines.isEmpty then r := r.ora c "ack-cut" "acknowledgement although the client disconnected before DATA"
+    for (_, f1) in c.recs do
+      if envComplete f1 then r := r.ora c "queued-cut" "complete envelope although the client disconnected before DATA"
+    return r
+  -- (1) model
+  let pre := str "220 me.example ESMTP\r\n" ++ (if heloO.isSome then str "250 me.example\r\n" else []) ++
+    (if mailOk then str "250 ok\r\n" else str "555 syntax error (#5.5.4)\r\n") ++
+    (rcptRes.map (fun x => x.1 ++ crlfB)).flatten
+  let dataOk := mailOk && !accepted.isEmpty
+  if !dataOk then
+    let pre2 := pre ++ (if !mailOk then str "503 MAIL first (#5.5.1)\r\n" else str "503 RCPT first (#5.5.1)\r\n")
+    if c.out.take pre2.length != pre2 then r := r.dis c s!"output-prefix model={hex pre2} impl={hex c.out}"
+    if !c.recs.isEmpty then r := r.dis c "queue-run although DATA was refused"
+    if !ackLines.isEmpty then r := r.ora c "ack-refused-data" "acknowledgement although DATA was refused"
+    return r
+  let rcptto := (accepted.map (fun a => [84] ++ a ++ [0])).flatten
+  let d := Smtp.data cfg heloO sender rcptto stream
+  let q := (QQ.opened c.wleft).run d.ops
+  let pre3 := pre ++ str "354 go ahead\r\n"
+  match c.recs with
+  | [(f0, f1)] =>
+    if q.msgPipe != f0 then r := r.dis c s!"message-pipe model={hex q.msgPipe} impl={hex f0}"
+    if q.envPipe != f1 then r := r.dis c s!"envelope-pipe model={hex q.envPipe} impl={hex f1}"
+  | _ => r := r.dis c s!"queue-runs model=1 impl={c.recs.length}"
+  match d.stop with
+  | some _ =>
+    let exp := pre3 ++ (if d.stray then str "451 See https://cr.yp.to/docs/smtplf.html.\r\n" else [])
+    if c.out != exp then r := r.dis c s!"output model={hex exp} impl={hex c.out}"
+    if c.exit != 1 then r := r.dis c s!"exit model=1 impl={c.exit}"
+  | none =>
+    let rep := Smtp.reply d (q.verdict e) c.now (c.pids.headD 0)
+    let exp := pre3 ++ rep
+    if d.rest == str "QUIT\r\n" then
+      if c.out != exp ++ str "221 me.example\r\n" then r := r.dis c s!"output model={hex (exp ++ str "221 me.example\r\n")} impl={hex c.out}"
+      if c.exit != 0 then r := r.dis c s!"exit model=0 impl={c.exit}"
+    else if d.rest.isEmpty then
+      if c.out != exp then r := r.dis c s!"output model={hex exp} impl={hex c.out}"
+      if c.exit != 1 then r := r.dis c s!"exit model=1 impl={c.exit}"
+    else if c.out.take exp.length != exp then r := r.dis c s!"output-prefix model={hex exp} impl={hex c.out}"
+  -- (2) oracle: reference decoder, independent hop count, acknowledged addresses read off the replies
+  let lines := splitCRLF [] c.out
+  let base := 1 + (if heloO.isSome then 1 else 0)
+  let mailAck := lines.getD base [] == str "250 ok"
+  let rcptAcks := (rcpts.zip (lines.drop (base + 1))).filter (fun (_, l) => l == str "250 ok")
+  let ackedAddrs := rcptAcks.map (fun (a, _) => a ++ relayB)
+  let dataLine := lines.getD (base + 1 + rcpts.length) []
+  let finalLine := lines.getD (base + 2 + rcpts.length) []
+  let spec := Nq.SmtpIn.rfcDecode stream
+  let shownHelo := match heloO with
+    | some h => if lower (cstr h) == lower (cstr c.peer.remotehost) then none else some h
+    | none => none
+  match spec with
+  | .accepted body rest =>
+    let wire := stream.take (stream.length - rest.length)
+    let hops := Nq.Spec.C07.hopsSpec wire
+    let tooBig := c.databytes ≠ 0 && body.length > c.databytes
+    let content := receivedSpec "SMTP" c.peer.remotehost c.peer.remoteip (lhostOf c.peer) c.peer.info shownHelo c.now ++ body
+    let acked := isAckLine c.now finalLine
+    if ackLines.length > (if acked then 1 else 0) then r := r.ora c "stray-ack" "an acknowledgement line other than the reply to the end of DATA"
+    if acked then
+      match c.recs with
+      | [(f0, f1)] =>
+        if !(mailAck && dataLine == str "354 go ahead" && Queued f0 f1 e.exit e.crashed content sender ackedAddrs) then
+          r := r.ora c "ack-not-exact" s!"acknowledged but queue got fd0={hex f0} fd1={hex f1} exit={e.exit} crashed={e.crashed} expected-content={hex content} expected-rcpts={ackedAddrs.map hex}"
+      | _ => r := r.ora c "ack-without-queue" "acknowledged but no (single) queue run"
+      if tooBig then r := r.ora c "ack-oversize" s!"{body.length} bytes acknowledged with databytes={c.databytes}"
+      if hops ≥ 100 then r := r.ora c "ack-hops" s!"acknowledged with {hops} hops"
+    else
+      for (_, f1) in c.recs do
+        if !NotQueued f1 e.exit e.crashed then r := r.ora c "queued-without-ack" "queued (complete envelope, exit 0) but not acknowledged"
+      -- class of the refusal
+      let code := finalLine.take 4
+      let want : List Bytes :=
+        if hops ≥ 100 then [str "554 "]
+        else if tooBig then [str "552 "]
+        else match qqClass e.exit e.crashed e.text with
+          | .ok => if c.wleft.isSome then [str "451 "] else []
+          | .perm => [str "554 "]
+          | .temp => [str "451 "]
+          | .any => [str "554 ", str "451 "]
+      if !want.contains code then r := r.ora c "class" s!"hops={hops} size={body.length}/{c.databytes} exit={e.exit} crashed={e.crashed}: reply {hex finalLine} has the wrong class"
+  | _ =>
+    -- bare LF or no terminator before the client went away: no acknowledgement, nothing queued
+    if !ackLines.isEmpty then r := r.ora c "ack-unterminated" "acknowledgement although DATA was never terminated properly"
+    for (_, f1) in c.recs do
+      if envComplete f1 then r := r.ora c "queued-unterminated" "complete envelope although DATA was never terminated properly"
+    if spec == .stray && finalLine.take 4 != str "451 " then r := r.ora c "class" s!"bare LF must be refused with 451, got {hex finalLine}"
+  return r
+
+/-! ### line handler -/
+
+def handle (st : Stats) (line : String) : IO Stats := do
+  match parseCase line with
+  | none =>
+    IO.println s!"DISAGREE what=unparsable-line case={(line.take 300).toString.replace " " "|"}"
+    return { st with disagree := st.disagree + 1, cases := st.cases + 1 }
+  | some c =>
+    let h := hashBytes (c.key.toUTF8.toList)
+    let fresh := !st.seen.contains h
+    let nontriv := !c.recs.isEmpty
+    let mut st := { st with cases := st.cases + 1, seen := st.seen.insert h,
+                            nontrivial := st.nontrivial + (if fresh && nontriv then 1 else 0) }
+    st := st.bump ("proto" ++ c.proto)
+    st := st.bump (s!"exit{c.exit}")
+    if c.wleft.isSome then st := st.bump "writefault"
+    let r := match c.proto with
+      | "M" => qmtpCheck c { st := st }
+      | "Q" => qmqpCheck c { st := st }
+      | "S" => smtpCheck c { st := st }
+      | _ => (Rep.mk st []).dis c "unknown-protocol"
+    for m in r.msgs do IO.println m
+    st := r.st
+    if fresh && nontriv && st.samples < 4 && c.out.length > 0 then
+      IO.println s!"SAMPLE {(line.take 1500).toString}"
+      st := { st with samples := st.samples + 1 }
+    return st
+
 def main : IO Unit := runDriver handle
